@@ -81,7 +81,9 @@ void _ZNK11QDomElement9attributeERK7QStringS2_(char *ret, char *el, char *name, 
   if (n->has[s]) { *(QAD**)ret = n->av[s]; return; } *(QAD**)ret = dflt; }
 uint8_t _ZNK11QDomElement12hasAttributeERK7QString(char *el, char *name) { return dn_attr(DN(el), *(QAD**)name) >= 0; }
 static struct dnode *dn_child_from(struct dnode *n, uint32_t from, QAD *tag) { if (!n) return 0;
-  for (uint32_t i = 0; i < DOM_MAXCH; i++) { if (i >= n->nch) break; if (i >= from && (!tag || tag->f1 == 0 || d_eq(n->ch[i]->tag, tag))) return n->ch[i]; } return 0; }
+  /* a slot that still holds the sentinel was never written on any path: the walk ends there for symex even when the child COUNT is a symbolic term
+     (children written under symbolic conditions), which keeps sibling loops of the real code concretely bounded by the number of append sites */
+  for (uint32_t i = 0; i < DOM_MAXCH; i++) { if (i >= n->nch) break; struct dnode *c = n->ch[i]; if (c == &c02_nonode) break; if (i >= from && (!tag || tag->f1 == 0 || d_eq(c->tag, tag))) return c; } return 0; }
 void _ZNK8QDomNode17firstChildElementERK7QString(char *ret, char *el, char *tag) { DN(ret) = dn_child_from(DN(el), 0, *(QAD**)tag); }
 void _ZNK8QDomNode18nextSiblingElementERK7QString(char *ret, char *el, char *tag) { struct dnode *n = DN(el); if (!n) { DN(ret) = 0; return; } struct dnode *p = n->parent; if (!p) { DN(ret) = 0; return; } DN(ret) = dn_child_from(p, n->idx + 1, *(QAD**)tag); }
 void _ZNK8QDomNode10firstChildEv(char *ret, char *el) { DN(ret) = dn_child_from(DN(el), 0, 0); }
